@@ -2,5 +2,19 @@
 
 package webrtc
 
+import (
+	"context"
+
+	"github.com/pion/datachannel"
+)
+
 // VerifIsOfferer exposes isOfferer.
 func VerifIsOfferer(a, b string) bool { return isOfferer(a, b) }
+
+// VerifExecuteLink runs the quic-over-datachannel link phase of a session with the
+// signaled remote peer over the given data channel, as the session tracker does
+// once the data channel is open.
+func VerifExecuteLink(ctx context.Context, w *WebRTC, remotePeerID string, dc datachannel.ReadWriteCloser) error {
+	_, st := w.newSessionTracker(remotePeerID)
+	return st.executeLink(ctx, dc)
+}
